@@ -13,7 +13,7 @@ THEOREMS = [_T + n for n in [
     "multipart_disposition2231_recovered", "multipart_roundtrip_2231", "limits_exact_2231",
     "urlencoded_utf8_names_mojibake", "urlencoded_utf8_roundtrip_partial", "urlencoded_utf8_roundtrip_refuted",
     "urlencoded_names_latin1", "urlencoded_wide_name_unrecoverable",
-    "multipart_roundtrip_prefilled", "multipart_roundtrip_2231_prefilled",
+    "multipart_roundtrip_prefilled", "multipart_roundtrip_2231_prefilled", "multipart_roundtrip_entry", "multipart_roundtrip_2231_entry",
     "multipart_inner_exceptions", "multipart_inner_unicode_error", "part_headers_never_keyerror", "parse_body_outcomes",
 ]]
 TRUSTED = [
@@ -50,7 +50,9 @@ CLAUSES = {
         "the former side condition 'no upload whose field name ends in a backslash' is gone with the fix 112a637: multipart_disposition_recovered, "
         "multipart_trailing_backslash_fixed / multipart_trailing_backslash_recovered evaluate the old witness; "
         "RFC 2231 parameters (name*=utf-8''pct): multipart_roundtrip_2231 (names/filenames ANY non-empty scalar-valued text, control "
-        "characters included; same side condition), multipart_disposition2231_recovered (_parse_header level)",
+        "characters included; same side condition), multipart_disposition2231_recovered (_parse_header level); at the parse_body_arguments "
+        "entry, boundary carried by the Content-Type header: multipart_roundtrip_entry, multipart_roundtrip_2231_entry; pre-filled dicts: "
+        "multipart_roundtrip_prefilled, multipart_roundtrip_2231_prefilled",
     "urlencoded forms are recovered exactly": "urlencoded_roundtrip, urlencoded_roundtrip_entry (names sent as latin-1 bytes); names sent the standard "
         "way, as UTF-8: urlencoded_utf8_roundtrip_partial (ASCII names) — the full clause is FALSE for non-ASCII names, "
         "urlencoded_utf8_roundtrip_refuted / urlencoded_utf8_names_mojibake; urlencoded_names_latin1 / urlencoded_wide_name_unrecoverable: no body at "
